@@ -1,23 +1,31 @@
-From MST Require Import Base TreeM Diff Intervals DiffWalk Statements.
+From MST Require Import Base TreeM Diff Intervals DiffWalk.
 
 Section P.
 Variable digest : Type.
 Variable deqb : digest -> digest -> bool.
 Notation prange := (prange digest).
 
-Lemma bounds_in (l : list prange) r : In r l -> In (ps _ r) (bounds_of digest l) /\ In (pe _ r) (bounds_of digest l).
+(* the statement of C13 (functional half) for arbitrary lists *)
+Definition wf_pr (r : prange) : Prop := ps _ r <= pe _ r.
+Definition bounds_of (l : list prange) : list N := flat_map (fun r => [ps _ r; pe _ r]) l.
+Definition C13_total : Prop := forall local peer, Forall wf_pr local -> Forall wf_pr peer ->
+  exists rs, diff digest deqb local peer = Ok rs /\
+    Forall (fun r => ds r <= de r) rs /\ strict_asc rs /\
+    Forall (fun r => In (ds r) (bounds_of (local ++ peer)) /\ In (de r) (bounds_of (local ++ peer))) rs.
+
+Lemma bounds_in (l : list prange) r : In r l -> In (ps _ r) (bounds_of l) /\ In (pe _ r) (bounds_of l).
 Proof. intros H. unfold bounds_of. rewrite !in_flat_map. split; exists r; simpl; auto. Qed.
 
-Theorem C13_total_proved : forall (V : Type), C13_total digest deqb.
+Theorem C13_total_proved : C13_total.
 Proof.
-  intros _ local peer_ Wl Wp. unfold C13_total in *.
+  intros local peer_ Wl Wp.
   destruct peer_ as [|root rest].
   - exists []. cbn. repeat split; constructor.
-  - remember (root :: rest) as P eqn:EP. set (X := fun z => In z (bounds_of digest (local ++ P))).
-    assert (OKL: forall l, (forall r, In r l -> In r (local ++ P)) -> Forall (wf_pr digest) l -> okl digest X (fun _ => True) l).
+  - remember (root :: rest) as P eqn:EP. set (X := fun z => In z (bounds_of (local ++ P))).
+    assert (OKL: forall l, (forall r, In r l -> In r (local ++ P)) -> Forall (wf_pr) l -> okl digest X (fun _ => True) l).
     { intros l Hin W. split; [exact W|]. rewrite Forall_forall. intros r Hr. apply Hin in Hr. apply bounds_in in Hr. destruct Hr; repeat split; auto. }
     assert (Hroot: In root P) by (rewrite EP; now left).
-    assert (Wroot: wf_pr digest root) by (rewrite Forall_forall in Wp; auto).
+    assert (Wroot: wf_pr root) by (rewrite Forall_forall in Wp; auto).
     assert (Xroot: xp digest X (fun _ => True) root). { assert (In root (local ++ P)) as Hr by (apply in_app_iff; auto). apply bounds_in in Hr. destruct Hr; repeat split; auto. }
     assert (OKS: oks digest X (fun _ => True) (fun _ => True) (fun _ => True) (ST digest P local (B [] []))).
     { split; [apply OKL; auto; intros; apply in_app_iff; auto|]. split; [apply OKL; auto; intros; apply in_app_iff; auto|].
